@@ -1098,8 +1098,8 @@ def trlog(T, check=True, twist=False):
                 return np.zeros((3,))
             else:
                 return np.zeros((3, 3))
-        elif abs(np.trace(R) + 1) < 100 * _eps:
-            # check for trace = -1
+        elif np.trace(R) < 0 and base.norm(base.vex((R - R.T) / 2)) < 1e-8:
+            # within 1e-8 of trace = -1 (beyond that the general case below is accurate)
             #   rotation by +/- pi, +/- 3pi etc.
             diagonal = R.diagonal()
             k = diagonal.argmax()
